@@ -16,8 +16,9 @@ import (
 type (
 	// Group 管理一组 [Router]
 	Group[T any] struct {
-		routers []*Router[T]
-		ms      []types.Middleware[T]
+		routers  []*Router[T]
+		matchers []Matcher // 与 routers 一一对应，保存在 Group 而不是 Router 中，同一个 Router 可以添加到不同的 Group。
+		ms       []types.Middleware[T]
 
 		call           CallFunc[T]
 		notFound       T // 所有路由都找不着时调用的方法，该方法应用的中间件中 router 参数是为空的。
@@ -44,8 +45,9 @@ func NewGroup[T any](
 	}
 
 	return &Group[T]{
-		routers: make([]*Router[T], 0, 1),
-		ms:      make([]types.Middleware[T], 0, 10),
+		routers:  make([]*Router[T], 0, 1),
+		matchers: make([]Matcher, 0, 1),
+		ms:       make([]types.Middleware[T], 0, 10),
 
 		call:                    call,
 		notFound:                notFound,
@@ -71,8 +73,8 @@ func (g *Group[T]) ServeHTTP(w http.ResponseWriter, r *http.Request) {
 		}()
 	}
 
-	for _, router := range g.routers {
-		if ok := router.matcher.Match(r, ctx); ok {
+	for i, router := range g.routers {
+		if ok := g.matchers[i].Match(r, ctx); ok {
 			router.serveContext(w, r, ctx)
 			return
 		}
@@ -107,8 +109,8 @@ func (g *Group[T]) Add(matcher Matcher, r *Router[T]) {
 	}
 
 	r.Use(g.ms...)
-	r.matcher = matcher
 	g.routers = append(g.routers, r)
+	g.matchers = append(g.matchers, matcher)
 }
 
 // Router 返回指定名称的路由
@@ -135,7 +137,10 @@ func (g *Group[T]) Use(m ...types.Middleware[T]) {
 func (g *Group[T]) Routers() []*Router[T] { return g.routers }
 
 func (g *Group[T]) Remove(name string) {
-	g.routers = slices.DeleteFunc(g.routers, func(r *Router[T]) bool { return r.Name() == name })
+	if i := slices.IndexFunc(g.routers, func(r *Router[T]) bool { return r.Name() == name }); i >= 0 { // 名称是唯一的
+		g.routers = slices.Delete(g.routers, i, i+1)
+		g.matchers = slices.Delete(g.matchers, i, i+1)
+	}
 }
 
 func (g *Group[T]) Routes() map[string]map[string][]string {
